@@ -9,6 +9,7 @@ From RV Require Import Gen.LeafMorph Model.Morph Proofs.Morph.
 From RV Require Import Gen.LeafTurb Model.Turb Proofs.Turb.
 From Coq Require Import String.
 From RV Require Import Gen.C02Sites Gen.LeafLoops Model.C02Surf Proofs.C02Surf Proofs.C02Ledger.
+From RV Require Import Gen.LeafKernels Proofs.C02Kernels Proofs.C02Live Model.LinksNest.
 Local Open Scope Z_scope.
 
 (* geom::fit_to_rect is the intersection *)
@@ -135,7 +136,7 @@ Print Assumptions C02_alloc_sites_classified.
    computed, reviewed or registered class) and the number of index expressions per function is the reviewed one *)
 Theorem C02_sites_discharged :
   (forall s, In s panic_sites -> exists c, In (s, c) panic_ledger /\ pclass_ok c = true) /\
-  (forall s, In s index_counts -> exists why, In (s, why) index_ledger) /\ panic_sites <> [].
+  (forall s, In s index_counts -> exists c, In (s, c) index_ledger) /\ panic_sites <> [].
 Proof. exact sites_discharged. Qed.
 Print Assumptions C02_sites_discharged.
 
@@ -188,6 +189,80 @@ Theorem C02_turbulence_octaves_follow_document : forall n, 0 <= n <= U32_MAX -> 
 Proof. exact turb_octaves_follow_document. Qed.
 Print Assumptions C02_turbulence_octaves_follow_document.
 
+(* ================================================================== extension round 4, second pass *)
+(* lighting (diffuse / specular): unless the image is smaller than 3x3 (early return, SOURCE-DERIVED guard - seed C02-8 turned its
+   `||` into `&&`), every one of the 9 calc(nx, ny, <normal>) calls of lighting::apply - corners, edge loops, interior loop - writes
+   inside the image and every pixel its normal function reads through alpha_at lies inside the image; `width - 2` does not underflow *)
+Theorem C02_lighting_indices_in_range : forall w h x y, light_guard w h = false ->
+  0 <= w - 2 /\ 0 <= h - 2 /\ List.length (light_calls w h x y) = 9%nat /\ Forall (light_call_ok w h x y) (light_calls w h x y).
+Proof. exact lighting_indices_ok. Qed.
+Print Assumptions C02_lighting_indices_in_range.
+Theorem C02_image_index_in_range : forall w h p, in_img w h p -> 0 <= w * snd p + fst p < w * h.
+Proof. exact in_img_index. Qed.
+Print Assumptions C02_image_index_in_range.
+
+(* feDisplacementMap: under the SOURCE-DERIVED guard both indices are inside the images and `oy * w + ox` stays in i32, for EVERY
+   rounded offset (any i32: huge scales saturate, NaN casts to 0) - for images of at most i32::MAX pixels (a larger one needs a
+   >= 8 GiB filter region first: class filter-image-unbounded) *)
+Theorem C02_displacement_indices_in_range : forall w h x y ox oy,
+  1 <= w -> 1 <= h -> w * h <= I32_MAX -> 0 <= x -> 0 <= y -> dm_guard w h x y ox oy = true ->
+  0 <= dm_idx w h x y ox oy < w * h /\ 0 <= dm_idx1 w h x y ox oy < w * h /\ Forall i32R (dm_idx_steps w h x y ox oy).
+Proof. exact displacement_indices_ok. Qed.
+Print Assumptions C02_displacement_indices_in_range.
+
+(* feComponentTransfer table / discrete: every index into `values` is in range and `len - 1` does not underflow, for every
+   non-empty list (empty ones never reach transfer: is_dummy, pinned) and EVERY channel value c (any rational; NaN / negative cast to 0) *)
+Theorem C02_transfer_indices_in_range : forall len c, 1 <= len ->
+  Forall (fun i => 0 <= i < len) (ct_table_indices len c) /\ Forall (fun s => 0 <= s) (ct_table_usize_steps len) /\
+  Forall (fun i => 0 <= i < len) (ct_discrete_indices len c) /\ Forall (fun s => 0 <= s) (ct_discrete_usize_steps len).
+Proof. exact transfer_indices_ok. Qed.
+Print Assumptions C02_transfer_indices_in_range.
+
+(* box blur sizes: for every sigma > 0 (w_ideal = sqrt(..) + 1 >= 1, its saturating cast wf in 1 ..= i32::MAX): wl is odd, >= 1,
+   wl + 2 does not overflow, and the radii `((box - 1) / 2) as usize` are non-negative (a negative one would become ~2^64) *)
+Theorem C02_box_gauss_sizes_bounded : forall wf, 1 <= wf <= I32_MAX ->
+  1 <= bg_wl wf <= I32_MAX - 2 /\ Z.rem (bg_wl wf) 2 = 1 /\ bg_wu (bg_wl wf) <= I32_MAX /\
+  0 <= bg_radius (bg_wl wf) /\ 0 <= bg_radius (bg_wu (bg_wl wf)) <= 1073741823 /\ bg_radius 1 = 0.
+Proof. exact box_gauss_ok. Qed.
+Print Assumptions C02_box_gauss_sizes_bounded.
+
+(* every call of filter::f32_bound hands it finite limits (the two debug_assert!s on min / max): literals 0, 1, 255 or a value that
+   is itself the result of f32_bound(0, _, 1) - decided over the list of ALL call sites *)
+Theorem C02_f32_bound_limits : forallb f32_bound_args_ok f32_bound_calls = true /\ f32_bound_calls <> [].
+Proof. exact f32_bound_calls_ok. Qed.
+Print Assumptions C02_f32_bound_limits.
+
+(* group layers at ANY nesting depth (frames reachable through layer_child_max, source-derived) are at most k x k canvases *)
+Theorem C02_nested_layers_bounded : forall W H m0 ox oy m b nf r,
+  1 <= W <= CANVAS_MAX -> 1 <= H <= CANVAS_MAX -> max_bbox W H = Some m0 -> frame m0 ox oy m -> layer_box b nf m = LBox r ->
+  valid_irect r /\ iw r <= MAXBB_MUL_W * W /\ ih r <= MAXBB_MUL_H * H /\ iw r * ih r <= K2 * (W * H).
+Proof. exact nested_layer_bounded. Qed.
+Print Assumptions C02_nested_layers_bounded.
+
+(* memory alive at the same time: n layers (any frames) together hold at most n * k^2 * W * H pixels.  The factor n is NOT bounded by
+   the canvas: it follows the nesting depth / clip-chain length / number of filter primitives of the document (counts, not magnitudes) *)
+Theorem C02_live_layers_linear : forall W H m0 (ls : list (Z * Z * irect * qrect * bool * irect)),
+  1 <= W <= CANVAS_MAX -> 1 <= H <= CANVAS_MAX -> max_bbox W H = Some m0 ->
+  Forall (fun e => let '(ox, oy, m, b, nf, r) := e in frame m0 ox oy m /\ layer_box b nf m = LBox r) ls ->
+  fold_right Z.add 0 (map (fun e => let '(_, _, _, _, _, r) := e in iw r * ih r) ls) <= Z.of_nat (List.length ls) * (K2 * (W * H)).
+Proof. exact nested_layers_total. Qed.
+Print Assumptions C02_live_layers_linear.
+
+(* layers inside a nested SVG image: k^4 canvases (fresh max_bbox of the surface-sized buffer), and images nest one level only
+   (C03's loader model, Proofs/LinksNest.v nest_bounded, imported read-only) *)
+Theorem C02_nested_image_layers_bounded : forall W H m0 ox oy m b nf r m1 ox1 oy1 m' b1 nf1 r1,
+  1 <= W -> MAXBB_MUL_W * W <= CANVAS_MAX -> 1 <= H -> MAXBB_MUL_H * H <= CANVAS_MAX ->
+  max_bbox W H = Some m0 -> frame m0 ox oy m -> layer_box b nf m = LBox r ->
+  max_bbox (fst (buf_image_pixmap_0 (layer_size r))) (snd (buf_image_pixmap_0 (layer_size r))) = Some m1 ->
+  frame m1 ox1 oy1 m' -> layer_box b1 nf1 m' = LBox r1 ->
+  iw r1 * ih r1 <= (K2 * K2) * (W * H).
+Proof. exact nested_image_layer_bounded. Qed.
+Print Assumptions C02_nested_image_layers_bounded.
+Theorem C02_image_nesting_depth : forall (fs : fsys) (o : ropt) (d : idoc) (fuel : nat),
+  exists t, load (S (S fuel)) fs o d = Some t /\ (depth t <= 1)%nat.
+Proof. exact image_nesting_depth_1. Qed.
+Print Assumptions C02_image_nesting_depth.
+
 (* ------------------------------------------------------------------ non-vacuity *)
 (* a translucent group half outside a 100x100 canvas gets a layer *)
 Example C02_nv_half_outside :
@@ -226,4 +301,18 @@ Proof. vm_compute. auto. Qed.
 Example C02_nv_conv_wrap : conv_wrap 8 0 8 0 3 = Some (1, 3).   (* -8 -> -5 -> -2 -> 1 *)
 Proof. vm_compute. reflexivity. Qed.
 Example C02_nv_iir : iir_up 4 7 5 = Some (0, 4) /\ iir_down 5 7 5 = Some (35, 4).
+Proof. vm_compute. auto. Qed.
+(* second pass *)
+Example C02_nv_lighting_guard : light_guard 1 120 = true /\ light_guard 3 3 = false /\ light_guard 2 3 = true.
+Proof. vm_compute. auto. Qed.
+Example C02_nv_lighting_3x3 : map (fun c => snd (fst c)) (light_calls 3 3 1 1) =
+  [((false, false), (0, 0)); ((false, false), (2, 0)); ((false, false), (0, 2)); ((false, false), (2, 2));
+   ((true, false), (1, 0)); ((true, false), (1, 2)); ((false, true), (0, 1)); ((false, true), (2, 1)); ((true, true), (1, 1))].
+Proof. vm_compute. reflexivity. Qed.
+Example C02_nv_displacement : dm_guard 4 2 3 1 2 1 = true /\ dm_idx 4 2 3 1 2 1 = 6 /\ dm_guard 4 2 3 1 2147483647 0 = false.
+Proof. vm_compute. auto. Qed.
+Example C02_nv_transfer : ct_table_indices 3 (1 # 2) = [1; 2] /\ ct_table_indices 3 1 = [2] /\ ct_discrete_indices 4 (7 # 2) = [3]
+  /\ ct_table_indices 1 (1 # 3) = [0].
+Proof. vm_compute. auto. Qed.
+Example C02_nv_box_gauss : bg_wl 2147483647 = 2147483645 /\ bg_wl 6 = 5 /\ bg_radius (bg_wu (bg_wl 6)) = 3.
 Proof. vm_compute. auto. Qed.
